@@ -4,11 +4,14 @@
    accept: what derive(Serialize) of t_old emits for its typed value of v is read by the
    generated decoder of t_new as EXACTLY the typed value t_new reads from v's own bytes
    (captured SerializedValues included: they are bytes of the input's encoding in both).
-   So code generated from the older schema is transparent for the newer one. *)
+   So code generated from the older schema is transparent for the newer one.
+   It generalises the last clause of TSerProofs.typed_cycle (t_old = t_new) and reuses its
+   struct bookkeeping; fields the old type does not know are decided by tde_ser on the captured
+   bytes. *)
 From Aldrin Require Import Codec.Base Codec.BaseProofs Codec.Value Codec.Ser Codec.De Codec.Skip
   Codec.RoundTrip Codec.DeProofs Codec.Depth Codec.SkipProofs gen.Consts.
 From Aldrin Require Import Derive.Ty Derive.TDe Derive.TSer Derive.Conforms Derive.Evolve Derive.TDeProofs
-  Derive.ConformsProofs Derive.TSerProofs.
+  Derive.ConformsProofs Derive.TSerProofs Derive.EvolveRel.
 From Coq Require Import ZifyBool ZifyNat ZifyN.
 Open Scope N_scope.
 Arguments N.add : simpl never.
@@ -18,231 +21,619 @@ Arguments N.ltb : simpl never.
 Arguments N.leb : simpl never.
 Arguments N.eqb : simpl never.
 
-(* ---------- the relation ---------- *)
-Lemma intk_eqb_eq a b : intk_eqb a b = true -> a = b.
-Proof. destruct a, b; cbn; congruence. Qed.
-Lemma fixk_eqb_eq a b : fixk_eqb a b = true -> a = b.
-Proof. destruct a, b; cbn; congruence. Qed.
-Lemma intk_eqb_refl a : intk_eqb a a = true. Proof. destruct a; reflexivity. Qed.
-Lemma fixk_eqb_refl a : fixk_eqb a a = true. Proof. destruct a; reflexivity. Qed.
-Lemma keyk_eqb_refl k : keyk_eqb k k = true.
-Proof. destruct k as [i| |]; try reflexivity. destruct i; reflexivity. Qed.
+(* ---------- the event a struct value's field produces, as a function ---------- *)
+Definition ev_of (e : epoch) (fs : list (N * (bool * ty))) (fb : bool) (d : nat) (p : N * Value) : option fevent :=
+  match find_field fs (fst p) with
+  | Some (true, ft) =>
+      match typed e ft (S d) (snd p) with Some y => Some (FKnown (fst p) (Some y)) | None => None end
+  | Some (false, ft) =>
+      match typed e (TOption ft) (S d) (snd p) with
+      | Some (XOpt o) => Some (FKnown (fst p) o)
+      | _ => None
+      end
+  | None =>
+      match raw_of e (S d) (snd p) with
+      | Some bs => Some (if fb then FUnknown (fst p) bs else FSkipped)
+      | None => None
+      end
+  end.
 
-Lemma lty_eqb_eq a b : lty_eqb a b = true -> a = b.
+Lemma typed_struct e fs fb d l :
+  typed e (TStruct fs fb) d (VStruct l) =
+  match opt_all (map (ev_of e fs fb d) l) with
+  | Some evs => match build_slots fs evs with
+                | Ok slots => Some (XStruct slots (unknowns evs))
+                | Err _ => None
+                end
+  | None => None
+  end.
+Proof. reflexivity. Qed.
+
+Definition ev_tag (ev : fevent) (id : N) : Prop :=
+  match ev with FKnown i _ | FUnknown i _ => i = id | FSkipped => True end.
+
+Lemma ev_of_tag e fs fb d p ev : ev_of e fs fb d p = Some ev -> ev_tag ev (fst p).
 Proof.
-  destruct a, b; cbn [lty_eqb]; try discriminate; try reflexivity; intros H.
-  - apply intk_eqb_eq in H. congruence.
-  - apply fixk_eqb_eq in H. congruence.
-  - apply keyk_eqb_eq in H. congruence.
+  unfold ev_of. destruct (find_field fs (fst p)) as [[[|] ft]|].
+  - destruct (typed e ft (S d) (snd p)); intros H; inversion H; reflexivity.
+  - destruct (typed e (TOption ft) (S d) (snd p)) as [[]|]; intros H; inversion H; reflexivity.
+  - destruct (raw_of e (S d) (snd p)); [destruct fb|]; intros H; inversion H; reflexivity.
 Qed.
-Lemma lty_eqb_refl a : lty_eqb a a = true.
-Proof. destruct a; cbn [lty_eqb]; auto using intk_eqb_refl, fixk_eqb_refl, keyk_eqb_refl. Qed.
 
-Lemma find_variant_in vs id o : find_variant vs id = Some o -> In (id, o) vs.
+(* the generated per-field code on the serialization of one field of a value *)
+Lemma sfield_ser e fs fb d p vb f r' : wf true (snd p) = true -> (fst p <=? u32_max) = true ->
+  ser e (S d) (snd p) = Ok vb -> (fuel2 (snd p) <= f)%nat ->
+  dec_res (sfield (tde f) fs fb (S d) ((put_varint 4 (fst p) ++ vb) ++ r')) (ev_of e fs fb d p) r'.
 Proof.
-  unfold find_variant. destruct (find _ vs) as [[i o']|] eqn:E; [|discriminate]. intros H. inversion H; subst o'.
-  apply find_some in E as [Hin Hq]. cbn [fst] in Hq. apply N.eqb_eq in Hq. subst i. exact Hin.
+  intros Hv Hk Ev Hf.
+  assert (forall t', dec_res (tde f t' (S d) (vb ++ r')) (typed e t' (S d) (snd p)) r') as D
+    by (intros t'; apply tde_ser; auto).
+  unfold sfield. rewrite <- app_assoc, varint_roundtrip by (try lia; apply u32_fits; exact Hk). cbn [bind].
+  unfold ev_of. destruct (find_field fs (fst p)) as [[[|] ft]|].
+  - specialize (D ft). destruct (typed e ft (S d) (snd p)) as [y|]; cbn [dec_res] in *.
+    + rewrite D. reflexivity.
+    + destruct D as [err D]. rewrite D. eexists; reflexivity.
+  - specialize (D (TOption ft)). destruct (typed e (TOption ft) (S d) (snd p)) as [y|]; cbn [dec_res] in *.
+    + rewrite D. cbn [bind]. destruct y; cbn [dec_res]; first [reflexivity|eexists; reflexivity].
+    + destruct D as [err D]. rewrite D. eexists; reflexivity.
+  - unfold raw_of. rewrite Ev. destruct fb; cbn [dec_res].
+    + rewrite (capture_ser e _ _ _ r' Hv Ev). reflexivity.
+    + rewrite (skip_at_ser e _ _ _ r' Hv Ev). reflexivity.
 Qed.
 
-Lemma find_variant_nodup vs v : ids_nodup (map fst vs) = true -> In v vs -> find_variant vs (fst v) = Some (snd v).
+Lemma varint4_roundtrip id r : (id <=? u32_max) = true -> get_varint 4 (put_varint 4 id ++ r) = Ok (id, r).
+Proof. intros H. apply varint_roundtrip; [lia|apply u32_fits; exact H]. Qed.
+
+(* ---------- lists with unique ids ---------- *)
+Lemma find_self {Y} (l : list (N * Y)) p : ids_nodup (map fst l) = true -> In p l ->
+  find (fun q => fst q =? fst p) l = Some p.
 Proof.
-  unfold ids_nodup, find_variant. induction vs as [|w vs IH]; cbn [map nodupb find]; [intros _ []|].
-  intros H Hin. apply andb_prop in H as [H1 H2]. destruct (N.eqb_spec (fst w) (fst v)) as [E|E].
+  unfold ids_nodup. induction l as [|w l IH]; cbn [map nodupb find]; [intros _ []|].
+  intros H Hin. apply andb_prop in H as [H1 H2]. destruct (N.eqb_spec (fst w) (fst p)) as [E|E].
   - destruct Hin as [->|Hin]; [reflexivity|]. exfalso. apply negb_true_iff in H1.
-    assert (existsb (N.eqb (fst w)) (map fst vs) = true) as C.
-    { apply existsb_exists. exists (fst v). split; [apply in_map; exact Hin|apply N.eqb_eq; exact E]. }
+    assert (existsb (N.eqb (fst w)) (map fst l) = true) as C.
+    { apply existsb_exists. exists (fst p). split; [apply in_map; exact Hin|apply N.eqb_eq; exact E]. }
     congruence.
   - destruct Hin as [->|Hin]; [contradiction|]. apply IH; assumption.
 Qed.
 
-Lemma evo_struct_field keep fs1 fb1 fs2 fb2 f1 :
-  evo keep (TStruct fs1 fb1) (TStruct fs2 fb2) = true -> In f1 fs1 ->
-  exists ft2, find_field fs2 (fst f1) = Some (fst (snd f1), ft2) /\ evo keep (snd (snd f1)) ft2 = true.
+Lemma nodup_fst_inj {Y} (l : list (N * Y)) p q : ids_nodup (map fst l) = true -> In p l -> In q l -> fst p = fst q -> p = q.
 Proof.
-  cbn [evo]. intros H Hin. apply andb_prop in H as [H _]. rewrite forallb_forall in H. specialize (H _ Hin).
-  destruct (find_field fs2 (fst f1)) as [[req2 ft2]|]; [|discriminate]. apply andb_prop in H as [Hr He].
-  apply Bool.eqb_prop in Hr. exists ft2. rewrite Hr. split; [reflexivity|exact He].
+  intros Hnd Hp Hq E. pose proof (find_self l p Hnd Hp) as Fp. pose proof (find_self l q Hnd Hq) as Fq.
+  rewrite E in Fp. rewrite Fp in Fq. congruence.
 Qed.
 
-Lemma evo_struct_keep fs1 fb1 fs2 fb2 :
-  evo true (TStruct fs1 fb1) (TStruct fs2 fb2) = true ->
-  fb1 = true \/ (fb2 = false /\ forall id, known_field fs2 id = true -> known_field fs1 id = true).
+Lemma flat_map_map {A B C} (g : A -> B) (h : B -> list C) l : flat_map h (map g l) = flat_map (fun x => h (g x)) l.
+Proof. induction l as [|x l IH]; cbn [map flat_map]; [reflexivity|]. rewrite IH. reflexivity. Qed.
+
+Lemma flat_map_nil {A B} (h : A -> list B) l : (forall x, In x l -> h x = []) -> flat_map h l = [].
 Proof.
-  cbn [evo negb orb]. intros H. apply andb_prop in H as [_ H]. apply orb_prop in H as [H|H]; [left; exact H|right].
-  apply andb_prop in H as [Hfb H]. apply negb_true_iff in Hfb. split; [exact Hfb|].
-  rewrite forallb_forall in H. intros id Hk. unfold known_field in Hk.
-  destruct (find_field fs2 id) as [[req ft]|] eqn:E; [|discriminate]. apply find_field_in in E.
-  exact (H _ E).
+  induction l as [|x l IH]; intros H; cbn [flat_map]; [reflexivity|].
+  rewrite (H x (or_introl eq_refl)), IH; [reflexivity|]. intros y Hy. apply H. right. exact Hy.
 Qed.
 
-Lemma evo_enum_variant keep vs1 fb1 vs2 fb2 v1 :
-  evo keep (TEnum vs1 fb1) (TEnum vs2 fb2) = true -> In v1 vs1 ->
-  match snd v1 with
-  | None => find_variant vs2 (fst v1) = Some None
-  | Some a => exists b, find_variant vs2 (fst v1) = Some (Some b) /\ evo keep a b = true
+Lemma flat_map_filter {A B} (P : A -> bool) (h : A -> list B) l :
+  (forall x, In x l -> P x = false -> h x = []) -> flat_map h (filter P l) = flat_map h l.
+Proof.
+  induction l as [|x l IH]; intros H; cbn [filter flat_map]; [reflexivity|].
+  rewrite <- IH by (intros y Hy; apply H; right; exact Hy).
+  destruct (P x) eqn:E; cbn [flat_map]; [reflexivity|]. rewrite (H x (or_introl eq_refl) E). reflexivity.
+Qed.
+
+Lemma map_filter_flat {A B} (P : A -> bool) (g : A -> B) l :
+  map g (filter P l) = flat_map (fun x => if P x then [g x] else []) l.
+Proof. induction l as [|x l IH]; cbn [filter flat_map map]; [reflexivity|]. destruct (P x); cbn [map app]; rewrite IH; reflexivity. Qed.
+
+Lemma Forall2_in_l {A B} (R : A -> B -> Prop) l l' x : Forall2 R l l' -> In x l -> exists y, In y l' /\ R x y.
+Proof.
+  induction 1 as [|a b l l' Hab _ IH]; intros Hin; [destruct Hin|].
+  destruct Hin as [->|Hin]; [exists b; split; [left; reflexivity|exact Hab]|].
+  destruct (IH Hin) as (y & Hy & Hr). exists y. split; [right; exact Hy|exact Hr].
+Qed.
+
+Lemma Forall2_map_fun {A B} (g : A -> B) (l : list A) (l' : list B) :
+  Forall2 (fun x y => g x = y) l l' -> l' = map g l.
+Proof. induction 1; cbn [map]; congruence. Qed.
+
+(* ---------- event lists that are the image of a field list under a tagged event function ---------- *)
+Definition tagged (g : N * Value -> fevent) : Prop := forall p, ev_tag (g p) (fst p).
+
+Lemma slot_map g (L : list (N * Value)) id : tagged g -> ids_nodup (map fst L) = true ->
+  slot_of (map g L) id =
+  match find (fun p => fst p =? id) L with
+  | Some p => match g p with FKnown _ o => o | _ => None end
+  | None => None
   end.
 Proof.
-  cbn [evo]. intros H Hin. apply andb_prop in H as [H _]. rewrite forallb_forall in H. specialize (H _ Hin).
-  destruct (find_variant vs2 (fst v1)) as [p2|]; [|discriminate].
-  destruct (snd v1) as [a|], p2 as [b|]; try discriminate; [|reflexivity]. exists b. split; [reflexivity|exact H].
+  intros Htag Hnd. unfold slot_of. rewrite last_known_unfold.
+  rewrite (lk_find (fun p => Some (g p)) L (map g L) id).
+  - destruct (find _ L) as [p|]; [|reflexivity]. cbn [ev_known]. destruct (g p); reflexivity.
+  - intros p i o H. inversion H as [H1]. pose proof (Htag p) as T. rewrite H1 in T. exact T.
+  - clear. induction L; cbn [map]; constructor; auto.
+  - exact Hnd.
 Qed.
 
-Lemma evo_enum_keep vs1 fb1 vs2 fb2 :
-  evo true (TEnum vs1 fb1) (TEnum vs2 fb2) = true ->
-  fb1 = true \/ (fb2 = false /\ forall id, known_variant vs2 id = true -> known_variant vs1 id = true).
+Lemma unknowns_map g (L : list (N * Value)) : tagged g -> ids_nodup (map fst L) = true ->
+  unknowns (map g L) = flat_map (fun p => ev_unknown (g p)) L.
 Proof.
-  cbn [evo negb orb]. intros H. apply andb_prop in H as [_ H]. apply orb_prop in H as [H|H]; [left; exact H|right].
-  apply andb_prop in H as [Hfb H]. apply negb_true_iff in Hfb. split; [exact Hfb|].
-  rewrite forallb_forall in H. intros id Hk. unfold known_variant in Hk.
-  destruct (find_variant vs2 id) as [o|] eqn:E; [|discriminate]. apply find_variant_in in E.
-  exact (H _ E).
+  intros Htag Hnd. rewrite unknowns_flat; rewrite flat_map_map; [reflexivity|].
+  apply (nodup_select fst); [|exact Hnd]. intros p. pose proof (Htag p) as T.
+  destruct (g p) as [i o|i raw|]; cbn [ev_unknown ev_tag] in *; [left; reflexivity|right|left; reflexivity].
+  subst i. eexists; reflexivity.
 Qed.
 
-(* the shape relation alone is weaker; with a fallback everywhere in the old type it is enough *)
-Lemma evolves_keeping_evolves t1 : forall t2, evolves_keeping t1 t2 = true -> evolves t1 t2 = true.
+(* a struct decoder that sees only some of the fields, in another order, ends in the same state
+   provided the fields it does not see would have assigned nothing *)
+Lemma events_kept g (l K : list (N * Value)) (A : N * Value -> bool) :
+  tagged g -> ids_nodup (map fst l) = true -> ids_nodup (map fst (filter A l ++ K)) = true ->
+  incl K l ->
+  (forall p, In p K -> ev_unknown (g p) = []) ->
+  (forall p, In p l -> A p = false -> ev_unknown (g p) = []) ->
+  (forall p, In p l -> ~ In p (filter A l ++ K) -> match g p with FKnown _ (Some _) => False | _ => True end) ->
+  (forall id, slot_of (map g (filter A l ++ K)) id = slot_of (map g l) id) /\
+  unknowns (map g (filter A l ++ K)) = unknowns (map g l).
 Proof.
-  unfold evolves_keeping, evolves.
-  induction t1 as [l| |a IH|a IH|n a IH|k a IH|a b IHa IHb|fs fb IH|vs fb IH] using ty_ind';
-    intros t2; destruct t2 as [l2| |a2|a2|n2 a2|k2 a2|a2 b2|fs2 fb2|vs2 fb2]; cbn [evo]; try discriminate; auto.
-  - intros H. apply andb_prop in H as [H1 H2]. rewrite H1, (IH _ H2). reflexivity.
-  - intros H. apply andb_prop in H as [H1 H2]. rewrite H1, (IH _ H2). reflexivity.
-  - intros H. apply andb_prop in H as [H1 H2]. rewrite (IHa _ H1), (IHb _ H2). reflexivity.
-  - intros H. apply andb_prop in H as [H _]. cbn [negb orb]. rewrite andb_true_r.
-    rewrite forallb_forall in H |- *. rewrite Forall_forall in IH. intros f Hin. specialize (H _ Hin).
-    destruct (find_field fs2 (fst f)) as [[req2 ft2]|]; [|discriminate]. apply andb_prop in H as [Hr He].
-    rewrite Hr, (IH _ Hin _ He). reflexivity.
-  - intros H. apply andb_prop in H as [H _]. cbn [negb orb]. rewrite andb_true_r.
-    rewrite forallb_forall in H |- *. rewrite Forall_forall in IH. intros v Hin. specialize (H _ Hin). specialize (IH _ Hin).
-    destruct (find_variant vs2 (fst v)) as [p2|]; [|discriminate].
-    destruct (snd v) as [a|], p2 as [b|]; try discriminate; [|reflexivity]. cbn [on_payload] in IH. exact (IH _ H).
+  intros Htag Hnd Hnd' HK HKu HAu Hin. split.
+  - intros id. rewrite (slot_map g _ id Htag Hnd'), (slot_map g _ id Htag Hnd).
+    assert (incl (filter A l ++ K) l) as Hincl.
+    { intros p Hp. apply in_app_or in Hp as [Hp|Hp]; [apply filter_In in Hp as [Hp _]; exact Hp|apply HK; exact Hp]. }
+    destruct (find (fun p => fst p =? id) l) as [p|] eqn:F.
+    + apply find_some in F as [Hp Hq]. apply N.eqb_eq in Hq.
+      destruct (find (fun p => fst p =? id) (filter A l ++ K)) as [q|] eqn:F'.
+      * apply find_some in F' as [Hq' Hq'']. apply N.eqb_eq in Hq''.
+        assert (q = p) as -> by (apply (nodup_fst_inj l); auto; congruence). reflexivity.
+      * assert (~ In p (filter A l ++ K)) as Hn.
+        { intros C. pose proof (find_none _ _ F' p C) as H. cbn beta in H. rewrite Hq, N.eqb_refl in H. discriminate. }
+        specialize (Hin p Hp Hn). destruct (g p) as [i [y|]| |]; try reflexivity. contradiction.
+    + destruct (find (fun p => fst p =? id) (filter A l ++ K)) as [q|] eqn:F'; [|reflexivity].
+      apply find_some in F' as [Hq' Hq'']. pose proof (find_none _ _ F q (Hincl q Hq')) as H. cbn beta in H. congruence.
+  - rewrite (unknowns_map g _ Htag Hnd'), (unknowns_map g _ Htag Hnd). rewrite flat_map_app.
+    rewrite (flat_map_nil _ K HKu), app_nil_r. apply flat_map_filter. exact HAu.
 Qed.
 
-Lemma evolves_all_fallback t1 : forall t2, evolves t1 t2 = true -> all_fallback t1 = true -> evolves_keeping t1 t2 = true.
+(* ---------- encode with t1, decode with t2 ---------- *)
+Definition cyc2 (e : epoch) (t1 t2 : ty) (d : nat) (v : Value) (x1 x2 : tval) : Prop :=
+  exists bs', tser t1 d x1 = Ok bs' /\
+    forall f r, (fuel2 v <= f)%nat -> tde f t2 d (bs' ++ r) = Ok (x2, r).
+
+Lemma cyc2_same e t d v bs x : wf true v = true -> wf_ty t = true -> ser e d v = Ok bs ->
+  typed e t d v = Some x -> cyc2 e t t d v x x.
 Proof.
-  unfold evolves_keeping, evolves.
-  induction t1 as [l| |a IH|a IH|n a IH|k a IH|a b IHa IHb|fs fb IH|vs fb IH] using ty_ind';
-    intros t2; destruct t2 as [l2| |a2|a2|n2 a2|k2 a2|a2 b2|fs2 fb2|vs2 fb2]; cbn [evo all_fallback]; try discriminate; auto.
-  - intros H F. apply andb_prop in H as [H1 H2]. rewrite H1, (IH _ H2 F). reflexivity.
-  - intros H F. apply andb_prop in H as [H1 H2]. rewrite H1, (IH _ H2 F). reflexivity.
-  - intros H F. apply andb_prop in H as [H1 H2]. apply andb_prop in F as [F1 F2]. rewrite (IHa _ H1 F1), (IHb _ H2 F2). reflexivity.
-  - intros H F. apply andb_prop in H as [H _]. apply andb_prop in F as [Ffb F]. rewrite Ffb. cbn [negb orb]. rewrite andb_true_r.
-    rewrite forallb_forall in H, F |- *. rewrite Forall_forall in IH. intros f Hin. specialize (H _ Hin).
-    destruct (find_field fs2 (fst f)) as [[req2 ft2]|]; [|discriminate]. apply andb_prop in H as [Hr He].
-    rewrite Hr, (IH _ Hin _ He (F _ Hin)). reflexivity.
-  - intros H F. apply andb_prop in H as [H _]. apply andb_prop in F as [Ffb F]. rewrite Ffb. cbn [negb orb]. rewrite andb_true_r.
-    rewrite forallb_forall in H, F |- *. rewrite Forall_forall in IH. intros v Hin. specialize (H _ Hin). specialize (IH _ Hin).
-    specialize (F _ Hin). destruct (find_variant vs2 (fst v)) as [p2|]; [|discriminate].
-    destruct (snd v) as [a|], p2 as [b|]; try discriminate; [|reflexivity]. cbn [on_payload] in IH. exact (IH _ H F).
+  intros Hwf Hty Hs Ht. destruct (typed_cycle e v t d bs x Hwf Hty Hs Ht) as (bs' & A & _ & C).
+  exists bs'. split; assumption.
 Qed.
 
-(* every valid type evolves (keeping) to itself: typed_cycle2 contains typed_cycle's last clause *)
-Lemma evolves_keeping_refl t : wf_ty t = true -> evolves_keeping t t = true.
+Lemma cyc2_elems e a1 a2 d (l : list Value) : forall ys1 ys2,
+  Forall2 (fun x y => typed e a1 d x = Some y) l ys1 -> Forall2 (fun x y => typed e a2 d x = Some y) l ys2 ->
+  (forall x y1 y2, In x l -> typed e a1 d x = Some y1 -> typed e a2 d x = Some y2 -> cyc2 e a1 a2 d x y1 y2) ->
+  exists inners, mapM (tser a1 d) ys1 = Ok inners /\ length inners = length l /\
+    Forall2 (fun b xy => forall f r, (fuel2 (fst xy) <= f)%nat -> tde f a2 d (b ++ r) = Ok (snd xy, r))
+            inners (combine l ys2).
 Proof.
-  unfold evolves_keeping.
-  induction t as [l| |a IH|a IH|n a IH|k a IH|a b IHa IHb|fs fb IH|vs fb IH] using ty_ind'; cbn [evo wf_ty]; auto.
-  - intros _. apply lty_eqb_refl.
-  - intros H. apply andb_prop in H as [_ H]. rewrite N.eqb_refl, (IH H). reflexivity.
-  - intros H. rewrite keyk_eqb_refl, (IH H). reflexivity.
-  - intros H. apply andb_prop in H as [H1 H2]. rewrite (IHa H1), (IHb H2). reflexivity.
-  - intros H. apply andb_prop in H as [Hnd H]. rewrite forallb_forall in H. rewrite Forall_forall in IH.
-    apply andb_true_intro. split.
-    + apply forallb_forall. intros f Hin. rewrite (find_field_nodup fs f Hnd Hin).
-      destruct (snd f) as [req ft] eqn:E. cbn [fst snd]. rewrite Bool.eqb_reflx. cbn [andb].
-      specialize (H _ Hin). apply andb_prop in H as [_ H]. specialize (IH _ Hin). rewrite E in *. cbn [snd] in *. exact (IH H).
-    + cbn [negb orb]. destruct fb; cbn [orb negb andb]; [reflexivity|]. apply forallb_forall. intros f Hin.
-      unfold known_field. rewrite (find_field_nodup fs f Hnd Hin). reflexivity.
-  - intros H. apply andb_prop in H as [Hnd H]. rewrite forallb_forall in H. rewrite Forall_forall in IH.
-    apply andb_true_intro. split.
-    + apply forallb_forall. intros v Hin. rewrite (find_variant_nodup vs v Hnd Hin).
-      specialize (H _ Hin). apply andb_prop in H as [_ H]. specialize (IH _ Hin).
-      destruct (snd v) as [a|]; [|reflexivity]. cbn [on_payload] in IH. exact (IH H).
-    + cbn [negb orb]. destruct fb; cbn [orb negb andb]; [reflexivity|]. apply forallb_forall. intros v Hin.
-      unfold known_variant. rewrite (find_variant_nodup vs v Hnd Hin). reflexivity.
+  induction l as [|x l IH]; intros ys1 ys2 H1 H2 HC.
+  - inversion H1; subst. inversion H2; subst. exists []. repeat split; constructor.
+  - inversion H1 as [|? y1 ? ys1' Hy1 H1']; subst. inversion H2 as [|? y2 ? ys2' Hy2 H2']; subst.
+    destruct (HC x y1 y2 (or_introl eq_refl) Hy1 Hy2) as (b & Hb & Htde).
+    destruct (IH ys1' ys2' H1' H2' (fun x' z1 z2 Hin => HC x' z1 z2 (or_intror Hin))) as (inners & Hm & Hl & F).
+    exists (b :: inners). cbn [mapM combine length]. rewrite Hb, Hm. cbn [bind]. split; [reflexivity|].
+    split; [congruence|]. constructor; [exact Htde|exact F].
 Qed.
 
-(* the boolean relation is the inductive one *)
-Theorem evolves_iff t1 : forall t2, evolves t1 t2 = true <-> Evolves t1 t2.
+Lemma cyc2_entries e k a1 a2 d (l : list (keyv * Value)) : forall ys1 ys2 : list (keyv * tval),
+  Forall2 (fun p q => fst q = fst p /\ typed e a1 d (snd p) = Some (snd q)) l ys1 ->
+  Forall2 (fun p q => fst q = fst p /\ typed e a2 d (snd p) = Some (snd q)) l ys2 ->
+  (forall p, In p l -> key_ok true k (fst p) = true) ->
+  (forall p y1 y2, In p l -> typed e a1 d (snd p) = Some y1 -> typed e a2 d (snd p) = Some y2 ->
+     cyc2 e a1 a2 d (snd p) y1 y2) ->
+  exists chunks,
+    mapM (fun q => kbs <- put_key k (fst q) ;; b <- tser a1 d (snd q) ;; Ok (kb KSome :: kbs ++ b)) ys1 = Ok chunks /\
+    length chunks = length l /\
+    (forall f, (forall p, In p l -> (fuel2 (snd p) <= f)%nat) ->
+       Forall2 (chunk_ok (tmap_elem k (tde f a2 d))) chunks ys2).
 Proof.
-  unfold evolves.
-  induction t1 as [l| |a IH|a IH|n a IH|k a IH|a b IHa IHb|fs fb IH|vs fb IH] using ty_ind'; intros t2; split.
-  all: try (destruct t2 as [l2| |a2|a2|n2 a2|k2 a2|a2 b2|fs2 fb2|vs2 fb2]; cbn [evo]; try discriminate; intros H).
-  all: try (intros H; inversion H; subst; clear H; cbn [evo]).
-  - apply lty_eqb_eq in H. subst. constructor.
-  - apply lty_eqb_refl.
-  - constructor.
-  - reflexivity.
-  - constructor. apply IH. exact H.
-  - apply IH. assumption.
-  - constructor. apply IH. exact H.
-  - apply IH. assumption.
-  - apply andb_prop in H as [H1 H2]. apply N.eqb_eq in H1. subst. constructor. apply IH. exact H2.
-  - rewrite N.eqb_refl. apply IH. assumption.
-  - apply andb_prop in H as [H1 H2]. apply keyk_eqb_eq in H1. subst. constructor. apply IH. exact H2.
-  - rewrite keyk_eqb_refl. apply IH. assumption.
-  - apply andb_prop in H as [H1 H2]. constructor; [apply IHa|apply IHb]; assumption.
-  - apply andb_true_intro. split; [apply IHa|apply IHb]; assumption.
-  - constructor. apply Forall_forall. intros f Hin.
-    destruct (evo_struct_field false fs fb fs2 fb2 f H Hin) as (ft2 & Hf & He). exists ft2. split; [exact Hf|].
-    rewrite Forall_forall in IH. apply (IH _ Hin). exact He.
-  - cbn [negb orb]. rewrite andb_true_r. apply forallb_forall. intros f Hin.
-    rewrite Forall_forall in IH. match goal with F : Forall _ fs |- _ => rewrite Forall_forall in F; destruct (F _ Hin) as (ft2 & Hf & He) end.
-    rewrite Hf. rewrite Bool.eqb_reflx. cbn [andb]. apply (IH _ Hin). exact He.
-  - constructor. apply Forall_forall. intros v Hin.
-    pose proof (evo_enum_variant false vs fb vs2 fb2 v H Hin) as E. rewrite Forall_forall in IH. specialize (IH _ Hin).
-    destruct (snd v) as [a|]; [right|left; auto]. destruct E as (b & Hf & He). exists a, b. repeat split; auto.
-    cbn [on_payload] in IH. apply IH. exact He.
-  - cbn [negb orb]. rewrite andb_true_r. apply forallb_forall. intros v Hin.
-    rewrite Forall_forall in IH. specialize (IH _ Hin).
-    match goal with F : Forall _ vs |- _ => rewrite Forall_forall in F; destruct (F _ Hin) as [(E1 & E2)|(a & b & E1 & E2 & E3)] end.
-    + rewrite E2, E1. reflexivity.
-    + rewrite E2, E1. rewrite E1 in IH. cbn [on_payload] in IH. apply IH. exact E3.
+  induction l as [|p l IH]; intros ys1 ys2 H1 H2 HK HC.
+  - inversion H1; subst. inversion H2; subst. exists []. repeat split; intros; constructor.
+  - inversion H1 as [|? q1 ? ys1' [Hk1 Hy1] H1']; subst. inversion H2 as [|? q2 ? ys2' [Hk2 Hy2] H2']; subst.
+    destruct (HC p (snd q1) (snd q2) (or_introl eq_refl) Hy1 Hy2) as (b & Hb & Htde).
+    destruct (IH ys1' ys2' H1' H2' (fun p' Hin => HK p' (or_intror Hin))
+                (fun p' z1 z2 Hin => HC p' z1 z2 (or_intror Hin))) as (chunks & Hm & Hl & F).
+    pose proof (HK p (or_introl eq_refl)) as Hok.
+    destruct (put_key_ok true k (fst p) Hok) as (kbs & Hkb & _).
+    exists ((kb KSome :: kbs ++ b) :: chunks). cbn [mapM length]. rewrite Hk1, Hkb, Hb, Hm. cbn [bind].
+    split; [reflexivity|]. split; [congruence|]. intros f Hf. constructor.
+    + exists (kbs ++ b). split; [reflexivity|]. intros r'. unfold tmap_elem.
+      rewrite <- app_assoc, (key_roundtrip _ _ _ _ _ Hok Hkb). cbn [bind].
+      rewrite Htde by (apply Hf; left; reflexivity). destruct q2 as [qk qy]. cbn [fst snd] in *. subst qk. reflexivity.
+    + apply F. intros p' Hp'. apply Hf. right. exact Hp'.
 Qed.
 
-(* ---------- specification level: what the newer type accepts, the older one accepts ---------- *)
-Lemma conforms_opt_field ft x :
-  match x with VNone => true | VSome y => conforms ft y | _ => false end = conforms (TOption ft) x.
-Proof. destruct x; reflexivity. Qed.
+Lemma combine_snd {A B} (R : A -> B -> Prop) l ys : Forall2 R l ys -> map snd (combine l ys) = ys.
+Proof. induction 1; cbn [combine map snd]; [reflexivity|]. f_equal. assumption. Qed.
 
-Theorem evolves_conforms : forall v t1 t2, evolves_keeping t1 t2 = true -> conforms t2 v = true -> conforms t1 v = true.
+Theorem typed_cycle2 e : forall v t1 t2 d bs x1 x2, wf true v = true -> wf_ty t1 = true -> wf_ty t2 = true ->
+  evo true t1 t2 = true -> ser e d v = Ok bs ->
+  typed e t1 d v = Some x1 -> typed e t2 d v = Some x2 -> cyc2 e t1 t2 d v x1 x2.
 Proof.
-  unfold evolves_keeping.
-  induction v as [|x IH|b|i z|fk fbs|s|l IH|bs0|k l IH|k l|l IH|id x IH] using Value_ind';
-    intros t1 t2 Hev Hc;
-    destruct t1 as [l1| |a1|a1|n1 a1|k1 a1|a1 b1|fs1 fb1|vs1 fb1];
-    destruct t2 as [l2| |a2|a2|n2 a2|k2 a2|a2 b2|fs2 fb2|vs2 fb2]; cbn [evo] in Hev; try discriminate Hev;
-    try (apply lty_eqb_eq in Hev; subst; exact Hc); try reflexivity; cbn [conforms] in Hc |- *; try discriminate Hc.
-  - (* Some / Option *) eapply IH; eauto.
+  induction v as [|x0 IH|b|i z|fk fbs|s|l IH|bs0|k l IH|k l|l IH|id x0 IH] using Value_ind';
+    intros t1 t2 d bs x1 x2 Hwf Hty1 Hty2 Hev Hser Ht1 Ht2;
+    (destruct t1 as [lt1| |a1|a1|len1 a1|kt1 a1|ta1 tb1|fs1 fb1|vs1 fb1];
+     destruct t2 as [lt2| |a2|a2|len2 a2|kt2 a2|ta2 tb2|fs2 fb2|vs2 fb2]; cbn [evo] in Hev; try discriminate Hev;
+     [apply lty_eqb_eq in Hev; subst lt2; rewrite Ht1 in Ht2; inversion Ht2; subst x2; eapply cyc2_same; eauto
+     |rewrite Ht1 in Ht2; inversion Ht2; subst x2; eapply cyc2_same; eauto
+     |..]); cbn [typed] in Ht1, Ht2; try discriminate Ht1.
+  all: pose proof (too_deep_ser _ _ _ _ Hser) as Hd.
+  - (* None / Option *)
+    inversion Ht1; subst x1. inversion Ht2; subst x2. exists [kb KNone]. split.
+    + cbn [tser]. rewrite Hd. reflexivity.
+    + intros f r Hf. destruct f as [|f]; [cbn in Hf; lia|]. cbn [app]. rewrite tde_step by (congruence || exact Hd). reflexivity.
+  - (* Some / Option *)
+    cbn [ser] in Hser. depth_ok Hser. bind_ok Hser b0 E. cbn [wf] in Hwf. cbn [wf_ty] in Hty1, Hty2.
+    destruct (typed e a1 (S d) x0) as [y1|] eqn:Ty1; [|discriminate]. inversion Ht1; subst x1.
+    destruct (typed e a2 (S d) x0) as [y2|] eqn:Ty2; [|discriminate]. inversion Ht2; subst x2.
+    destruct (IH a1 a2 (S d) b0 y1 y2 Hwf Hty1 Hty2 Hev E Ty1 Ty2) as (b' & Hb & Htde).
+    exists (kb KSome :: b'). split.
+    + cbn [tser]. rewrite Hd, Hb. reflexivity.
+    + intros f r Hf. cbn [fuel2] in Hf. destruct f as [|f]; [lia|]. cbn [app].
+      rewrite tde_step by (congruence || exact Hd). cbn [tde_kind]. rewrite Htde by lia. reflexivity.
   - (* Vec / Vec *)
-    rewrite forallb_forall in Hc |- *. rewrite Forall_forall in IH. intros x Hin. eapply IH; eauto.
+    cbn [wf] in Hwf. apply andb_prop in Hwf as [Hlen Hwf]. rewrite forallb_forall in Hwf. rewrite Forall_forall in IH.
+    cbn [wf_ty] in Hty1, Hty2.
+    destruct (opt_all (map (typed e a1 (S d)) l)) as [ys1|] eqn:Eo1; [|discriminate]. inversion Ht1; subst x1.
+    destruct (opt_all (map (typed e a2 (S d)) l)) as [ys2|] eqn:Eo2; [|discriminate]. inversion Ht2; subst x2.
+    apply opt_all_forall2 in Eo1. apply opt_all_forall2 in Eo2.
+    destruct (cyc2_elems e a1 a2 (S d) l ys1 ys2 Eo1 Eo2) as (inners & Hm & Hl & F2).
+    { intros x y1 y2 Hin Hy1 Hy2. destruct (ser_vec_child _ _ _ _ x Hser Hin) as [b0 Hb0]. eapply IH; eauto. }
+    exists (kb (KVec E2) :: concat (map (cons (kb KSome)) inners) ++ [kb KNone]). split.
+    + cbn [tser]. rewrite Hd. rewrite (mapM_cons_of _ _ _ _ Hm). reflexivity.
+    + intros f r Hf. cbn [fuel2] in Hf. destruct f as [|f]; [lia|]. cbn [app].
+      rewrite tde_step by (congruence || exact Hd). cbn [tde_kind]. rewrite <- app_assoc. cbn [app].
+      pose proof (combine_snd _ _ _ Eo2) as MS.
+      erewrite (loop2_spec (tde f a2 (S d)) _ (map snd (combine l ys2))); [rewrite MS; reflexivity| |].
+      * apply chunks_some. eapply Forall2_impl_in2; [exact F2|]. cbn beta. intros b0 xy _ Hin Hx r'. apply Hx.
+        apply in_combine_both in Hin as [Hin _].
+        pose proof (fuel2_in fuel2 (fst xy) l Hin). lia.
+      * rewrite map_length. lia.
   - (* Vec / Array *)
-    apply andb_prop in Hev as [Hn Hev]. apply N.eqb_eq in Hn. subst n2. apply andb_prop in Hc as [Hl Hc]. rewrite Hl. cbn [andb].
-    rewrite forallb_forall in Hc |- *. rewrite Forall_forall in IH. intros x Hin. eapply IH; eauto.
+    cbn [wf] in Hwf. apply andb_prop in Hwf as [Hlen Hwf]. rewrite forallb_forall in Hwf. rewrite Forall_forall in IH.
+    cbn [wf_ty] in Hty1, Hty2. apply andb_prop in Hty1 as [_ Hty1]. apply andb_prop in Hty2 as [_ Hty2].
+    apply andb_prop in Hev as [Hn Hev]. apply N.eqb_eq in Hn. subst len2.
+    destruct (lenN l =? len1) eqn:El; [|discriminate].
+    destruct (opt_all (map (typed e a1 (S d)) l)) as [ys1|] eqn:Eo1; [|discriminate]. inversion Ht1; subst x1.
+    destruct (opt_all (map (typed e a2 (S d)) l)) as [ys2|] eqn:Eo2; [|discriminate]. inversion Ht2; subst x2.
+    apply opt_all_forall2 in Eo1. apply opt_all_forall2 in Eo2.
+    destruct (cyc2_elems e a1 a2 (S d) l ys1 ys2 Eo1 Eo2) as (inners & Hm & Hl & F2).
+    { intros x y1 y2 Hin Hy1 Hy2. destruct (ser_vec_child _ _ _ _ x Hser Hin) as [b0 Hb0]. eapply IH; eauto. }
+    exists (kb (KVec E2) :: concat (map (cons (kb KSome)) inners) ++ [kb KNone]). split.
+    + cbn [tser]. rewrite Hd. rewrite (mapM_cons_of _ _ _ _ Hm). reflexivity.
+    + intros f r Hf. cbn [fuel2] in Hf. destruct f as [|f]; [lia|]. cbn [app].
+      rewrite tde_step by (congruence || exact Hd). cbn [tde_kind]. rewrite <- app_assoc. cbn [app].
+      pose proof (combine_snd _ _ _ Eo2) as MS.
+      assert (Forall2 (el_dec (tde f a2 (S d))) inners (map Some ys2)) as FD.
+      { rewrite <- MS, map_map. apply Forall2_map_r. eapply Forall2_impl_in2; [exact F2|]. cbn beta.
+        intros b0 xy _ Hin Hx r'. cbn [dec_res]. apply Hx. apply in_combine_both in Hin as [Hin _].
+        pose proof (fuel2_in fuel2 (fst xy) l Hin). lia. }
+      pose proof (arr2_dec _ _ _ r FD (N.to_nat len1)) as L. rewrite opt_all_map_some in L.
+      assert ((length inners =? N.to_nat len1)%nat = true) as EL.
+      { apply N.eqb_eq in El. unfold lenN in El. apply Nat.eqb_eq. lia. }
+      rewrite EL in L. cbn [dec_res] in L. rewrite L. reflexivity.
   - (* Map / Map *)
-    apply andb_prop in Hev as [Hk Hev]. apply keyk_eqb_eq in Hk. subst k2. apply andb_prop in Hc as [Hl Hc]. rewrite Hl. cbn [andb].
-    rewrite forallb_forall in Hc |- *. rewrite Forall_forall in IH. intros p Hin. eapply IH; eauto.
+    cbn [wf] in Hwf. apply andb_prop in Hwf as [Hwf Hall]. apply andb_prop in Hwf as [Hlen Hnd].
+    rewrite forallb_forall in Hall. rewrite Forall_forall in IH. cbn [wf_ty] in Hty1, Hty2.
+    apply andb_prop in Hev as [Hkk Hev]. apply keyk_eqb_eq in Hkk. subst kt2.
+    destruct (keyk_eqb kt1 k) eqn:Ek; [|discriminate]. apply keyk_eqb_eq in Ek. subst kt1.
+    match type of Ht1 with match opt_all (map ?g l) with _ => _ end = _ => set (spec1 := g) in * end.
+    match type of Ht2 with match opt_all (map ?g l) with _ => _ end = _ => set (spec2 := g) in * end.
+    destruct (opt_all (map spec1 l)) as [ys1|] eqn:Eo1; [|discriminate]. inversion Ht1; subst x1.
+    destruct (opt_all (map spec2 l)) as [ys2|] eqn:Eo2; [|discriminate]. inversion Ht2; subst x2.
+    pose proof (opt_all_keys _ fst _ _ Eo2) as Hkeys.
+    apply opt_all_forall2 in Eo1. apply opt_all_forall2 in Eo2.
+    assert (Forall2 (fun p q => fst q = fst p /\ typed e a1 (S d) (snd p) = Some (snd q)) l ys1) as FC1.
+    { eapply Forall2_impl_in; [exact Eo1|]. cbn beta. intros p q Hin Hq. unfold spec1 in Hq.
+      destruct (typed e a1 (S d) (snd p)) as [y|]; [|discriminate]. inversion Hq; subst q. split; reflexivity. }
+    assert (Forall2 (fun p q => fst q = fst p /\ typed e a2 (S d) (snd p) = Some (snd q)) l ys2) as FC2.
+    { eapply Forall2_impl_in; [exact Eo2|]. cbn beta. intros p q Hin Hq. unfold spec2 in Hq.
+      destruct (typed e a2 (S d) (snd p)) as [y|]; [|discriminate]. inversion Hq; subst q. split; reflexivity. }
+    destruct (cyc2_entries e k a1 a2 (S d) l ys1 ys2 FC1 FC2) as (chunks & Hm & Hl & F2).
+    { intros p Hin. specialize (Hall _ Hin). apply andb_prop in Hall as [Hk _]. exact Hk. }
+    { intros p y1 y2 Hin Hy1 Hy2. specialize (Hall _ Hin). apply andb_prop in Hall as [_ Hv].
+      destruct (ser_map_child _ _ _ _ _ p Hser Hin) as [b0 Hb0]. eapply IH; eauto. }
+    exists (kb (KMap E2 k) :: concat chunks ++ [kb KNone]). split.
+    + cbn [tser]. rewrite Hd, Hm. reflexivity.
+    + intros f r Hf. cbn [fuel2] in Hf. destruct f as [|f]; [lia|]. cbn [app].
+      rewrite tde_step by (congruence || exact Hd). cbn [tde_kind]. rewrite keyk_eqb_refl.
+      rewrite <- app_assoc. cbn [app].
+      assert (forall p, In p l -> (fuel2 (snd p) <= f)%nat) as HF.
+      { intros p Hin. pose proof (fuel2_in (fun p => fuel2 (snd p)) p l Hin). cbn beta in *. lia. }
+      erewrite loop2_spec; [cbn [bind]; rewrite dedup_tmap_id; [reflexivity|]| |].
+      * rewrite Hkeys. exact Hnd.
+      * apply F2. exact HF.
+      * lia.
   - (* Struct / Struct *)
-    apply andb_prop in Hc as [Hc1 Hc2]. rewrite forallb_forall in Hc1, Hc2. rewrite Forall_forall in IH.
-    apply andb_true_intro. split; apply forallb_forall.
-    + intros p Hin. specialize (Hc1 _ Hin). specialize (IH _ Hin).
-      destruct (find_field fs1 (fst p)) as [[req ft1]|] eqn:F1; [|reflexivity].
-      destruct (evo_struct_field true _ _ _ _ _ Hev (find_field_in _ _ _ _ F1)) as (ft2 & F2 & He). cbn [fst snd] in F2, He.
-      rewrite F2 in Hc1. destruct req.
-      * eapply IH; eauto.
-      * rewrite conforms_opt_field in Hc1 |- *. eapply (IH (TOption ft1) (TOption ft2)); eauto.
-    + intros f Hin. specialize (Hc2 _ Hin).
-      destruct (evo_struct_field true _ _ _ _ _ Hev Hin) as (ft2 & F2 & _). apply find_field_in in F2.
-      destruct (fst (snd f)); [|reflexivity]. cbn [negb orb] in *.
-      specialize (Hc2 _ F2). exact Hc2.
+    cbn [wf] in Hwf. apply andb_prop in Hwf as [Hwf Hall]. apply andb_prop in Hwf as [Hlen Hnd].
+    rewrite forallb_forall in Hall. rewrite Forall_forall in IH.
+    pose proof Hty1 as Hty10. pose proof Hty2 as Hty20.
+    cbn [wf_ty] in Hty1, Hty2. apply andb_prop in Hty1 as [Hfn1 Hfall1]. rewrite forallb_forall in Hfall1.
+    apply andb_prop in Hty2 as [Hfn2 Hfall2]. rewrite forallb_forall in Hfall2.
+    change (typed e (TStruct fs1 fb1) d (VStruct l) = Some x1) in Ht1. rewrite typed_struct in Ht1.
+    change (typed e (TStruct fs2 fb2) d (VStruct l) = Some x2) in Ht2. rewrite typed_struct in Ht2.
+    set (spec1 := ev_of e fs1 fb1 d) in *. set (spec2 := ev_of e fs2 fb2 d) in *.
+    destruct (opt_all (map spec1 l)) as [evs1|] eqn:Eo1; [|discriminate].
+    destruct (build_slots fs1 evs1) as [slots1|] eqn:Eb1; [|discriminate]. inversion Ht1; subst x1. clear Ht1.
+    apply opt_all_forall2 in Eo1. rewrite build_slots_spec in Eb1.
+    destruct (forallb _ fs1) eqn:RQ1 in Eb1; [|discriminate]. apply Ok_inj in Eb1. subst slots1.
+    rewrite forallb_forall in RQ1.
+    destruct (opt_all (map spec2 l)) as [evs2|] eqn:Eo2; [|discriminate].
+    destruct (build_slots fs2 evs2) as [slots2|] eqn:Eb2; [|discriminate]. inversion Ht2; subst x2. clear Ht2.
+    apply opt_all_forall2 in Eo2. rewrite build_slots_spec in Eb2.
+    destruct (forallb _ fs2) eqn:RQ2 in Eb2; [|discriminate]. apply Ok_inj in Eb2. subst slots2.
+    rewrite forallb_forall in RQ2.
+    pose proof (evo_struct_keep fs1 fb1 fs2 fb2 Hev) as KEEP.
+    (* facts per field of the value *)
+    assert (forall p, In p l -> exists raw, ser e (S d) (snd p) = Ok raw /\ wf true (snd p) = true /\
+              (fst p <=? u32_max) = true /\
+              (forall t1' t2' y1 y2, wf_ty t1' = true -> wf_ty t2' = true -> evo true t1' t2' = true ->
+                 typed e t1' (S d) (snd p) = Some y1 -> typed e t2' (S d) (snd p) = Some y2 ->
+                 cyc2 e t1' t2' (S d) (snd p) y1 y2)) as PF.
+    { intros p Hin. destruct (ser_struct_child _ _ _ _ p Hser Hin) as [raw Hraw]. exists raw.
+      specialize (Hall _ Hin). apply andb_prop in Hall as [Hk Hv]. repeat split; auto.
+      intros t1' t2' y1 y2 W1 W2 He Y1 Y2. eapply IH; eauto. }
+    assert (forall p i o, spec1 p = Some (FKnown i o) -> i = fst p) as Hid1
+      by (intros p i o H; exact (ev_of_tag _ _ _ _ _ _ H)).
+    assert (l <> [] -> too_deep (S d) = false) as HdS.
+    { destruct l as [|p l']; [congruence|]. intros _. destruct (PF p (or_introl eq_refl)) as (raw & Hr & _).
+      eapply too_deep_ser; eauto. }
+    set (sl1 := fun f : N * (bool * ty) => slot_of evs1 (fst f)).
+    assert (forall f, In f fs1 -> sl1 f = match find (fun p => fst p =? fst f) l with
+                                          | Some p => match spec1 p with Some (FKnown _ o) => o | _ => None end
+                                          | None => None end) as SL1.
+    { intros f Hf. unfold sl1, slot_of. rewrite last_known_unfold, (lk_find spec1 l evs1 (fst f) Hid1 Eo1 Hnd None).
+      destruct (find _ l) as [p|]; [|reflexivity]. destruct (spec1 p) as [[i o| |]|]; reflexivity. }
+    assert (forall f, In f fs1 -> wf_ty (fty f) = true /\ (fst f <=? u32_max) = true) as WT1.
+    { intros f Hf. specialize (Hfall1 _ Hf). apply andb_prop in Hfall1 as [K W]. split; [|exact K].
+      unfold fty. destruct (fst (snd f)); exact W. }
+    (* a set slot of the old type: its source field and typed value *)
+    assert (forall f y, In f fs1 -> sl1 f = Some y ->
+              exists p, find (fun p => fst p =? fst f) l = Some p /\ In p l /\ fst p = fst f /\
+                        typed e (fty f) (S d) (snd p) = Some (fval f y)) as SRC1.
+    { intros f y Hf Hs. rewrite (SL1 f Hf) in Hs. destruct (find _ l) as [p|] eqn:Fd; [|discriminate].
+      exists p. split; [reflexivity|].
+      apply find_some in Fd as [Hin Hq]. apply N.eqb_eq in Hq. split; [exact Hin|]. split; [exact Hq|].
+      pose proof (find_field_nodup fs1 f Hfn1 Hf) as FF. rewrite <- Hq in FF.
+      unfold spec1, ev_of in Hs. rewrite FF in Hs. unfold fty, fval in *. destruct (snd f) as [[|] ft]; cbn [fst snd] in *.
+      - destruct (typed e ft (S d) (snd p)) as [y'|] eqn:Ty; [|discriminate]. inversion Hs; subst y'. reflexivity.
+      - destruct (typed e (TOption ft) (S d) (snd p)) as [[| |o| | | | |]|] eqn:Ty; try discriminate.
+        subst o. reflexivity. }
+    (* the unknown fields of the old type *)
+    set (isunk1 := fun p : N * Value => fb1 && match find_field fs1 (fst p) with None => true | Some _ => false end).
+    set (rawf := fun p : N * Value => match raw_of e (S d) (snd p) with Some b => b | None => [] end).
+    assert (forall p, In p l -> match spec1 p with Some ev => ev_unknown ev | None => [] end =
+                                  if isunk1 p then [(fst p, rawf p)] else []) as UK1.
+    { intros p Hin. destruct (PF p Hin) as (raw & Hr & _). unfold spec1, ev_of, isunk1, rawf, raw_of. rewrite Hr.
+      destruct (find_field fs1 (fst p)) as [[[|] ft]|].
+      - rewrite andb_false_r. destruct (typed e ft (S d) (snd p)); reflexivity.
+      - rewrite andb_false_r. destruct (typed e (TOption ft) (S d) (snd p)) as [[]|]; reflexivity.
+      - rewrite andb_true_r. destruct fb1; reflexivity. }
+    set (U1 := flat_map (fun p => if isunk1 p then [(fst p, rawf p)] else []) l).
+    assert (unknowns evs1 = U1) as EU1.
+    { assert (flat_map ev_unknown evs1 = U1) as E1'.
+      { rewrite (flat_map_forall2 ev_unknown spec1 l evs1 Eo1). unfold U1.
+        clear -UK1. induction l as [|p l IHl]; cbn [flat_map]; [reflexivity|].
+        rewrite (UK1 p (or_introl eq_refl)), IHl; [reflexivity|]. intros q Hq. apply UK1. right. exact Hq. }
+      rewrite unknowns_flat; rewrite E1'; [reflexivity|]. unfold U1.
+      apply (nodup_select fst); [|exact Hnd]. intros p. destruct (isunk1 p); [right; eexists; reflexivity|left; reflexivity]. }
+    rewrite EU1.
+    (* serialization by the old type succeeds *)
+    assert (forall f, In f fs1 -> match sl1 f with
+                                  | Some y => exists b, ser_field d f y = Ok b
+                                  | None => fst (snd f) = false end) as SF1.
+    { intros f Hf. destruct (sl1 f) as [y|] eqn:Es.
+      - destruct (SRC1 f y Hf Es) as (p & _ & Hin & _ & Ty). destruct (PF p Hin) as (raw & Hr & Hv & _).
+        destruct (typed_cycle e (snd p) (fty f) (S d) raw (fval f y) Hv (proj1 (WT1 f Hf)) Hr Ty) as (b' & Hb & _).
+        rewrite ser_field_eq, Hb. eexists; reflexivity.
+      - specialize (RQ1 f Hf). fold (sl1 f) in RQ1. rewrite Es in RQ1. cbn [is_some] in RQ1. rewrite orb_false_r in RQ1.
+        apply negb_true_iff in RQ1. exact RQ1. }
+    set (kch1 := flat_map (fun f => match sl1 f with Some y => [chunk_of d f y] | None => [] end) fs1).
+    exists (kb (KStruct E2) :: concat (map rawchunk U1) ++ concat kch1 ++ [kb KNone]). split.
+    + rewrite tser_struct, Hd. rewrite raw_fields_ok.
+      * cbn [bind]. fold sl1. change (map (fun f => slot_of evs1 (fst f)) fs1) with (map sl1 fs1).
+        rewrite (ser_fields_map d sl1 fs1 SF1). reflexivity.
+      * intros HU. apply HdS. intros ->. apply HU. reflexivity.
+    + (* the decoder of the new type reads its own typed value *)
+      intros f0 r Hf. cbn [fuel2] in Hf.
+      set (g := fun p => match spec2 p with Some ev => ev | None => FSkipped end).
+      assert (tagged g) as Htag.
+      { intros p. unfold g. destruct (spec2 p) as [ev|] eqn:Sp; [exact (ev_of_tag _ _ _ _ _ _ Sp)|exact I]. }
+      assert (forall p, In p l -> spec2 p = Some (g p)) as G2.
+      { intros p Hin. destruct (Forall2_in_l _ _ _ p Eo2 Hin) as (ev & _ & Sp). unfold g. rewrite Sp. reflexivity. }
+      assert (evs2 = map g l) as EM2.
+      { apply Forall2_map_fun. eapply Forall2_impl_in; [exact Eo2|]. cbn beta. intros p ev Hin Sp. unfold g. rewrite Sp. reflexivity. }
+      (* every old field is a field of the new type *)
+      assert (forall f, In f fs1 -> exists ft2, find_field fs2 (fst f) = Some (fst (snd f), ft2) /\
+                 evo true (snd (snd f)) ft2 = true /\ wf_ty ft2 = true) as CO.
+      { intros f Hf0. destruct (evo_struct_field true fs1 fb1 fs2 fb2 f Hev Hf0) as (ft2 & F2 & He).
+        exists ft2. repeat split; auto. eapply wf_ty_field; [exact Hty20|exact F2]. }
+      (* a set slot of the old type, seen from the new type *)
+      assert (forall f y, In f fs1 -> sl1 f = Some y ->
+                exists p ft2 y2, find (fun p => fst p =? fst f) l = Some p /\ In p l /\ fst p = fst f /\
+                  find_field fs2 (fst f) = Some (fst (snd f), ft2) /\
+                  g p = FKnown (fst f) (Some y2) /\
+                  cyc2 e (fty f) (fty (fst f, (fst (snd f), ft2))) (S d) (snd p)
+                       (fval f y) (fval (fst f, (fst (snd f), ft2)) y2)) as SRC2.
+      { intros f y Hf0 Es. destruct (SRC1 f y Hf0 Es) as (p & Fd & Hin & Hq & Ty1).
+        destruct (CO f Hf0) as (ft2 & F2 & He & W2). destruct (PF p Hin) as (raw & Hr & Hv & Hk & CY).
+        pose proof (G2 p Hin) as Sp. unfold spec2, ev_of in Sp. rewrite Hq, F2 in Sp.
+        pose proof (proj1 (WT1 f Hf0)) as W1.
+        destruct f as [id [req ft1]]. unfold fty, fval in *. cbn [fst snd] in *. destruct req.
+        - destruct (typed e ft2 (S d) (snd p)) as [y2|] eqn:Ty2; [|discriminate]. inversion Sp as [Sg].
+          exists p, ft2, y2. repeat split; auto.
+        - destruct (typed_option_some _ _ _ _ _ Ty1) as [v0 Ev0].
+          destruct (typed e (TOption ft2) (S d) (snd p)) as [[| |o| | | | |]|] eqn:Ty2; try discriminate.
+          inversion Sp as [Sg]. rewrite Ev0 in Ty2. cbn [typed] in Ty2.
+          destruct (typed e ft2 (S (S d)) v0) as [y2|] eqn:Ty2'; [|discriminate]. inversion Ty2; subst o.
+          exists p, ft2, y2. repeat split; auto. apply CY; auto. rewrite Ev0. cbn [typed]. rewrite Ty2'. reflexivity. }
+      (* the fields the old type passes on: its unknown ones (raw), then its set slots *)
+      set (K := flat_map (fun f => match sl1 f with
+                                   | Some _ => match find (fun p => fst p =? fst f) l with Some p => [p] | None => [] end
+                                   | None => [] end) fs1).
+      assert (forall f1, (forall p, In p l -> (fuel2 (snd p) <= f1)%nat) ->
+                Forall2 (chunk_ok (sfield (tde f1) fs2 fb2 (S d))) (map rawchunk U1 ++ kch1)
+                        (map g (filter isunk1 l ++ K))) as CH.
+      { intros f1 HF. rewrite map_app. apply Forall2_app.
+        - unfold U1. rewrite map_flat_map, map_filter_flat. apply Forall2_flat_map. intros p Hin.
+          destruct (isunk1 p) eqn:Iu; cbn [map]; constructor; [|constructor].
+          destruct (PF p Hin) as (raw & Hr & Hv & Hk & _).
+          exists (put_varint 4 (fst p) ++ rawf p). split; [reflexivity|]. intros r'.
+          pose proof (sfield_ser e fs2 fb2 d p raw f1 r' Hv Hk Hr (HF p Hin)) as D. fold spec2 in D.
+          rewrite (G2 p Hin) in D. cbn [dec_res] in D. unfold rawf, raw_of. rewrite Hr. exact D.
+        - unfold kch1, K. rewrite map_flat_map. apply Forall2_flat_map. intros f Hf0.
+          destruct (sl1 f) as [y|] eqn:Es; [|constructor].
+          destruct (SRC2 f y Hf0 Es) as (p & ft2 & y2 & Fd & Hin & Hq & F2 & Gp & (b' & Hb & Htde)).
+          rewrite Fd. cbn [map]. constructor; [|constructor].
+          unfold chunk_of. rewrite ser_field_eq, Hb. cbn [bind].
+          exists (put_varint 4 (fst f) ++ b'). split; [reflexivity|]. intros r'. unfold sfield.
+          rewrite <- app_assoc, varint4_roundtrip by exact (proj2 (WT1 f Hf0)). cbn [bind].
+          rewrite F2. specialize (Htde f1 r' (HF p Hin)). rewrite Gp.
+          unfold fty, fval in Htde. cbn [fst snd] in Htde. destruct (fst (snd f)); rewrite Htde; reflexivity. }
+      assert (forall p, In p K -> exists f y, In f fs1 /\ sl1 f = Some y /\ find (fun q => fst q =? fst f) l = Some p) as INK.
+      { intros p Hp. unfold K in Hp. apply in_flat_map in Hp as (f & Hf0 & Hp). destruct (sl1 f) as [y|] eqn:Es; [|destruct Hp].
+        destruct (find _ l) as [q|] eqn:Fd; [|destruct Hp]. destruct Hp as [->|[]]. exists f, y. auto. }
+      assert (ids_nodup (map fst (filter isunk1 l ++ K)) = true) as ND.
+      { rewrite map_app. apply nodupb_app_disjoint.
+        - rewrite filter_flat_map. apply (nodup_select fst); [|exact Hnd]. intros p. destruct (isunk1 p); [right|left; reflexivity].
+          exists (snd p). destruct p; reflexivity.
+        - unfold K. apply (nodup_select fst); [|exact Hfn1]. intros f. destruct (sl1 f); [|left; reflexivity].
+          destruct (find _ l) as [q|] eqn:Fd; [right|left; reflexivity].
+          apply find_some in Fd as [_ Hq]. apply N.eqb_eq in Hq. exists (snd q). rewrite <- Hq. destruct q; reflexivity.
+        - intros i Hi. apply not_true_is_false. intros C.
+          apply in_map_iff in Hi as (p & <- & Hp). apply filter_In in Hp as [Hp Iu].
+          apply existsb_exists in C as (j & Hj & Hq). apply N.eqb_eq in Hq. subst j.
+          apply in_map_iff in Hj as (q & Hq & HqK). destruct (INK q HqK) as (f & y & Hf0 & _ & Fd).
+          apply find_some in Fd as [_ Hqf]. apply N.eqb_eq in Hqf.
+          unfold isunk1 in Iu. apply andb_prop in Iu as [_ Iu]. rewrite <- Hq, Hqf in Iu.
+          pose proof (find_field_some_in fs1 f Hf0). destruct (find_field fs1 (fst f)); [discriminate|congruence]. }
+      assert (incl K l) as INCL.
+      { intros p Hp. destruct (INK p Hp) as (f & y & _ & _ & Fd). apply find_some in Fd as [H _]. exact H. }
+      assert (forall p, In p K -> ev_unknown (g p) = []) as KU.
+      { intros p Hp. destruct (INK p Hp) as (f & y & Hf0 & Es & Fd).
+        destruct (SRC2 f y Hf0 Es) as (p' & ft2 & y2 & Fd' & _ & _ & _ & Gp & _).
+        rewrite Fd in Fd'. inversion Fd'; subst p'. rewrite Gp. reflexivity. }
+      assert (forall p, In p l -> isunk1 p = false -> ev_unknown (g p) = []) as AU.
+      { intros p Hin Iu. pose proof (G2 p Hin) as Sp. unfold spec2, ev_of in Sp.
+        destruct (find_field fs2 (fst p)) as [[[|] ft2]|] eqn:F2.
+        - destruct (typed e ft2 (S d) (snd p)); [|discriminate]. inversion Sp as [Sg]. reflexivity.
+        - destruct (typed e (TOption ft2) (S d) (snd p)) as [[| |o| | | | |]|]; try discriminate. inversion Sp as [Sg]. reflexivity.
+        - destruct (raw_of e (S d) (snd p)); [|discriminate]. inversion Sp as [Sg].
+          destruct fb2; [|reflexivity]. exfalso. destruct KEEP as [K1|[K1 _]]; [|discriminate].
+          unfold isunk1 in Iu. rewrite K1 in Iu. cbn [andb] in Iu.
+          destruct (find_field fs1 (fst p)) as [[req ft1]|] eqn:F1; [|discriminate].
+          destruct (CO _ (find_field_in _ _ _ _ F1)) as (ft2 & F2' & _). cbn [fst] in F2'. congruence. }
+      assert (forall p, In p l -> ~ In p (filter isunk1 l ++ K) ->
+                match g p with FKnown _ (Some _) => False | _ => True end) as INERT.
+      { intros p Hin Hn. pose proof (G2 p Hin) as Sp. unfold spec2, ev_of in Sp.
+        destruct (find_field fs1 (fst p)) as [[req ft1]|] eqn:F1.
+        - pose proof (find_field_in _ _ _ _ F1) as Hf0.
+          destruct (CO _ Hf0) as (ft2 & F2 & _). cbn [fst snd] in F2. rewrite F2 in Sp.
+          destruct (sl1 (fst p, (req, ft1))) as [y|] eqn:Es.
+          + exfalso. apply Hn. apply in_or_app. right. unfold K. apply in_flat_map. exists (fst p, (req, ft1)). split; [exact Hf0|].
+            rewrite Es. cbn [fst]. rewrite (find_self l p Hnd Hin). left. reflexivity.
+          + rewrite (SL1 _ Hf0) in Es. cbn [fst] in Es. rewrite (find_self l p Hnd Hin) in Es.
+            destruct (Forall2_in_l _ _ _ p Eo1 Hin) as (ev1 & _ & Sp1). rewrite Sp1 in Es.
+            unfold spec1, ev_of in Sp1. rewrite F1 in Sp1. destruct req.
+            * destruct (typed e ft1 (S d) (snd p)); [|discriminate]. inversion Sp1; subst ev1. discriminate.
+            * destruct (typed e (TOption ft1) (S d) (snd p)) as [[| |o| | | | |]|] eqn:Ty1; try discriminate.
+              inversion Sp1; subst ev1. subst o. rewrite (typed_option_none _ _ _ _ Ty1) in Sp. cbn [typed] in Sp.
+              inversion Sp as [Sg]. exact I.
+        - destruct (find_field fs2 (fst p)) as [[req2 ft2]|] eqn:F2.
+          + exfalso. destruct KEEP as [K1|[_ K2]].
+            * apply Hn. apply in_or_app. left. apply filter_In. split; [exact Hin|]. unfold isunk1. rewrite K1, F1. reflexivity.
+            * specialize (K2 (fst p)). unfold known_field in K2. rewrite F2, F1 in K2. specialize (K2 eq_refl). discriminate.
+          + destruct (raw_of e (S d) (snd p)); [|discriminate]. inversion Sp as [Sg]. destruct fb2; exact I. }
+      destruct (events_kept g l K isunk1 Htag Hnd ND INCL KU AU INERT) as [SLOTS UNK].
+      destruct f0 as [|f0]; [exfalso; clear -Hf; lia|]. cbn [app].
+      rewrite tde_step by (congruence || exact Hd). cbn [tde_kind].
+      replace ((concat (map rawchunk U1) ++ concat kch1 ++ [kb KNone]) ++ r)
+        with (concat (map rawchunk U1 ++ kch1) ++ kb KNone :: r) by (rewrite concat_app, <- !app_assoc; reflexivity).
+      assert (forall p, In p l -> (fuel2 (snd p) <= f0)%nat) as HF.
+      { intros p Hin. pose proof (fuel2_in (fun p => fuel2 (snd p)) p l Hin) as X. cbn beta in X. clear -X Hf. lia. }
+      erewrite loop2_spec; [| exact (CH f0 HF) |].
+      * cbn [bind]. rewrite build_slots_spec.
+        assert (forallb (fun f => negb (fst (snd f)) || is_some (slot_of (map g (filter isunk1 l ++ K)) (fst f))) fs2 = true) as ->.
+        { apply forallb_forall. intros f Hf0. rewrite SLOTS, <- EM2. apply RQ2. exact Hf0. }
+        cbn [bind]. rewrite UNK, <- EM2.
+        assert (map (fun f => slot_of (map g (filter isunk1 l ++ K)) (fst f)) fs2 = map (fun f => slot_of evs2 (fst f)) fs2) as ->.
+        { apply map_ext_in. intros f Hf0. rewrite SLOTS, <- EM2. reflexivity. }
+        reflexivity.
+      * rewrite (Forall2_len _ _ _ (CH f0 HF)), map_length.
+        assert (length (filter isunk1 l ++ K) <= length l)%nat as LE.
+        { rewrite <- (map_length fst (filter isunk1 l ++ K)), <- (map_length fst l).
+          apply NoDup_incl_length; [apply nodupb_NoDup; exact ND|]. apply incl_map.
+          intros p Hp. apply in_app_or in Hp as [Hp|Hp]; [apply filter_In in Hp as [Hp _]; exact Hp|apply INCL; exact Hp]. }
+        eapply Nat.le_lt_trans; [exact LE|]. clear -Hf. lia.
   - (* Enum / Result *)
-    apply andb_prop in Hev as [H1 H2]. destruct (id =? 0); [eapply IH; eauto|]. destruct (id =? 1); [eapply IH; eauto|discriminate].
+    cbn [ser] in Hser. depth_ok Hser. bind_ok Hser b0 E. cbn [wf] in Hwf. apply andb_prop in Hwf as [Hid Hwf].
+    cbn [wf_ty] in Hty1, Hty2. apply andb_prop in Hty1 as [Hta1 Htb1]. apply andb_prop in Hty2 as [Hta2 Htb2].
+    apply andb_prop in Hev as [Heva Hevb].
+    destruct (N.eqb_spec id 0) as [->|N0]; [|destruct (N.eqb_spec id 1) as [->|N1]; [|discriminate]].
+    + destruct (typed e ta1 (S d) x0) as [y1|] eqn:Ty1; [|discriminate]. inversion Ht1; subst x1.
+      destruct (typed e ta2 (S d) x0) as [y2|] eqn:Ty2; [|discriminate]. inversion Ht2; subst x2.
+      destruct (IH ta1 ta2 (S d) b0 y1 y2 Hwf Hta1 Hta2 Heva E Ty1 Ty2) as (b' & Hb & Htde).
+      exists (kb KEnum :: put_varint 4 0 ++ b'). split.
+      * cbn [tser]. rewrite Hd. change (0 =? 0) with true. cbn iota. rewrite Hb. reflexivity.
+      * intros f r Hf. cbn [fuel2] in Hf. destruct f as [|f]; [lia|]. cbn [app].
+        rewrite tde_step by (congruence || exact Hd). cbn [tde_kind].
+        rewrite <- app_assoc, varint_roundtrip by (try lia; reflexivity). cbn [bind]. change (0 =? 0) with true. cbn iota.
+        rewrite Htde by lia. reflexivity.
+    + destruct (typed e tb1 (S d) x0) as [y1|] eqn:Ty1; [|discriminate]. inversion Ht1; subst x1.
+      destruct (typed e tb2 (S d) x0) as [y2|] eqn:Ty2; [|discriminate]. inversion Ht2; subst x2.
+      destruct (IH tb1 tb2 (S d) b0 y1 y2 Hwf Htb1 Htb2 Hevb E Ty1 Ty2) as (b' & Hb & Htde).
+      exists (kb KEnum :: put_varint 4 1 ++ b'). split.
+      * cbn [tser]. rewrite Hd. change (1 =? 0) with false. change (1 =? 1) with true. cbn iota. rewrite Hb. reflexivity.
+      * intros f r Hf. cbn [fuel2] in Hf. destruct f as [|f]; [lia|]. cbn [app].
+        rewrite tde_step by (congruence || exact Hd). cbn [tde_kind].
+        rewrite <- app_assoc, varint_roundtrip by (try lia; reflexivity). cbn [bind].
+        change (1 =? 0) with false. change (1 =? 1) with true. cbn iota.
+        rewrite Htde by lia. reflexivity.
   - (* Enum / Enum *)
-    destruct (find_variant vs1 id) as [[vt1|]|] eqn:F1.
-    + pose proof (evo_enum_variant true _ _ _ _ _ Hev (find_variant_in _ _ _ F1)) as E. cbn [fst snd] in E.
-      destruct E as (vt2 & F2 & He). rewrite F2 in Hc. eapply IH; eauto.
-    + pose proof (evo_enum_variant true _ _ _ _ _ Hev (find_variant_in _ _ _ F1)) as E. cbn [fst snd] in E.
-      rewrite E in Hc. exact Hc.
-    + destruct (evo_enum_keep _ _ _ _ Hev) as [K|[K1 K2]]; [exact K|]. exfalso.
-      destruct (find_variant vs2 id) as [o|] eqn:F2.
-      * specialize (K2 id). unfold known_variant in K2. rewrite F2, F1 in K2. specialize (K2 eq_refl). discriminate.
-      * congruence.
+    cbn [ser] in Hser. depth_ok Hser. bind_ok Hser b0 E. cbn [wf] in Hwf. apply andb_prop in Hwf as [Hid Hwf].
+    destruct (find_variant vs1 id) as [[vt1|]|] eqn:Ev1.
+    + (* known to both, with a payload *)
+      pose proof (evo_enum_variant true vs1 fb1 vs2 fb2 _ Hev (find_variant_in _ _ _ Ev1)) as EV. cbn [fst snd] in EV.
+      destruct EV as (vt2 & Ev2 & Hev'). rewrite Ev2 in Ht2.
+      destruct (typed e vt1 (S d) x0) as [y1|] eqn:Ty1; [|discriminate]. inversion Ht1; subst x1.
+      destruct (typed e vt2 (S d) x0) as [y2|] eqn:Ty2; [|discriminate]. inversion Ht2; subst x2.
+      destruct (IH vt1 vt2 (S d) b0 y1 y2 Hwf (wf_ty_variant _ _ _ _ Hty1 Ev1) (wf_ty_variant _ _ _ _ Hty2 Ev2) Hev' E Ty1 Ty2)
+        as (b' & Hb & Htde).
+      exists (kb KEnum :: put_varint 4 id ++ b'). split.
+      * cbn [tser]. rewrite Hd, Ev1, Hb. destruct fb1; reflexivity.
+      * intros f r Hf. cbn [fuel2] in Hf. destruct f as [|f]; [lia|]. cbn [app].
+        rewrite tde_step by (congruence || exact Hd). cbn [tde_kind].
+        rewrite <- app_assoc, varint_roundtrip by (try lia; apply u32_fits; exact Hid). cbn [bind]. rewrite Ev2.
+        rewrite Htde by lia. reflexivity.
+    + (* a unit variant of both *)
+      pose proof (evo_enum_variant true vs1 fb1 vs2 fb2 _ Hev (find_variant_in _ _ _ Ev1)) as Ev2. cbn [fst snd] in Ev2.
+      rewrite Ev2 in Ht2. destruct x0; try discriminate. inversion Ht1; subst x1. inversion Ht2; subst x2.
+      exists (kb KEnum :: put_varint 4 id ++ [kb KNone]). split.
+      * cbn [tser]. rewrite Hd, Ev1. cbn [tser ser]. pose proof (too_deep_ser _ _ _ _ E) as Hd1.
+        rewrite Hd1. unfold too_deep in Hd1. rewrite Hd1. destruct fb1; reflexivity.
+      * intros f r Hf. cbn [fuel2] in Hf. destruct f as [|f]; [lia|]. cbn [app].
+        rewrite tde_step by (congruence || exact Hd). cbn [tde_kind].
+        rewrite <- app_assoc, varint_roundtrip by (try lia; apply u32_fits; exact Hid). cbn [bind]. rewrite Ev2.
+        destruct f as [|f]; [lia|]. cbn [app]. pose proof (too_deep_ser _ _ _ _ E) as Hd1.
+        rewrite tde_step by (congruence || exact Hd1). reflexivity.
+    + (* unknown to the old type: captured raw, decided by the new type on the captured bytes *)
+      destruct fb1; [|discriminate]. unfold raw_of in Ht1. rewrite E in Ht1. inversion Ht1; subst x1.
+      exists (kb KEnum :: put_varint 4 id ++ b0). split.
+      * cbn [tser]. rewrite Hd. rewrite (too_deep_ser _ _ _ _ E). reflexivity.
+      * intros f r Hf. cbn [fuel2] in Hf. destruct f as [|f]; [lia|]. cbn [app].
+        rewrite tde_step by (congruence || exact Hd). cbn [tde_kind].
+        rewrite <- app_assoc, varint_roundtrip by (try lia; apply u32_fits; exact Hid). cbn [bind].
+        assert (forall t', dec_res (tde f t' (S d) (b0 ++ r)) (typed e t' (S d) x0) r) as D
+          by (intros t'; apply tde_ser; auto; lia).
+        destruct (find_variant vs2 id) as [[vt2|]|] eqn:Ev2.
+        -- specialize (D vt2). destruct (typed e vt2 (S d) x0) as [y2|]; [|discriminate]. inversion Ht2; subst x2.
+           cbn [dec_res] in D. rewrite D. reflexivity.
+        -- specialize (D (TLeaf LUnit)). destruct x0; try discriminate. inversion Ht2; subst x2.
+           cbn [typed leaf_of dec_res] in D. rewrite D. reflexivity.
+        -- destruct fb2; [|discriminate]. unfold raw_of in Ht2. rewrite E in Ht2. inversion Ht2; subst x2.
+           rewrite (capture_ser e x0 (S d) b0 r Hwf E). reflexivity.
 Qed.
